@@ -269,11 +269,122 @@ Proof.
   { unfold q2_of. rewrite Ee. unfold q_samples, q_end. cbn [q_t0 q_v0 q_mids q_vl].
     rewrite Efin, Hm, HlT. unfold q_end. rewrite Hm. unfold q_of. cbn [q_t0 q_v0 hd]. destruct e0; reflexivity. }
   split; [rewrite Eq2; reflexivity|].
-  rewrite <- Ee. split; [|split; [|split]].
-  - unfold q2_of, q_of. cbn [q_t0]. rewrite (emitted_hd Bp Hne Hcb). reflexivity.
-  - unfold q2_of, q_of. cbn [q_v0]. rewrite (emitted_hd Bp Hne Hcb). reflexivity.
-  - rewrite <- Ee in Hqend. rewrite <- (emitted_last Bp Hne Hcb Hsep). rewrite <- Hqend.
-    unfold q2_of, q_end. cbn [q_mids q_t0]. reflexivity.
+  pose proof (emitted_hd Bp Hne Hcb) as Ehd. pose proof (emitted_last Bp Hne Hcb Hsep) as Elast.
+  rewrite Ee in Ehd, Elast.
+  split; [|split; [|split]].
+  - unfold q2_of, q_ok. rewrite Ee. cbn [q_t0 q_v0 q_mids]. exact Hqok.
+  - unfold q2_of. rewrite Ee. unfold q_of. cbn [q_t0]. exact (f_equal fst Ehd).
+  - unfold q2_of. rewrite Ee. unfold q_of. cbn [q_v0]. exact (f_equal snd Ehd).
+  - rewrite <- Elast, <- Hqend. unfold q2_of. rewrite Ee. unfold q_end. cbn [q_mids q_t0]. reflexivity.
 Qed.
 
 End Part.
+
+(* ---- the whole second level ---- *)
+
+Lemma seps_app res : forall l1 l2 : list (list (Z * Z)),
+  seps cw res (l1 ++ l2) ->
+  seps cw res l1 /\ seps cw res l2 /\
+  Forall (fun b1 => Forall (fun s1 => Forall (fun s2 => cw (fst s1) res < fst s2) (concat l2)) b1) l1.
+Proof.
+  induction l1 as [|b l1 IH]; intros l2 H; cbn [app] in H.
+  - split; [exact I|]. split; [exact H|constructor].
+  - destruct H as [Hb H]. destruct (IH l2 H) as (S1 & S2 & C).
+    rewrite concat_app in Hb. split; [|split; [exact S2|]].
+    + cbn [seps]. split; [|exact S1]. eapply Forall_impl; [|exact Hb]. intros s1 Hs1.
+      apply Forall_app in Hs1 as [? _]. assumption.
+    + constructor; [|exact C]. eapply Forall_impl; [|exact Hb]. intros s1 Hs1.
+      apply Forall_app in Hs1 as [_ ?]. assumption.
+Qed.
+
+Section Level2.
+Variables res1 res2 : Z.
+Hypothesis res1_pos : 0 < res1.
+Hypothesis res2_pos : 0 < res2.
+
+Lemma chain_parts : forall parts prevT,
+  Forall (fun p : list (list (Z * Z)) => p <> []) parts ->
+  Forall counter_batch (concat parts) -> seps cw res1 (concat parts) ->
+  match prevT with Some T => Forall (fun s : Z * Z => T < fst s) (concat (concat parts)) | None => True end ->
+  q_chain prevT (map (q2_of res1 res2) parts).
+Proof.
+  induction parts as [|p rest IH]; intros prevT Hne Hcb Hsep Hprev; [exact I|].
+  apply Forall_cons_iff in Hne as [Hp Hne]. cbn [concat] in Hcb, Hsep.
+  apply Forall_app in Hcb as [Hcp Hcr]. destruct (seps_app res1 _ _ Hsep) as (Sp & Sr & Cross).
+  destruct (part_chunk res1 res2 res1_pos res2_pos p Hp Hcp Sp) as (k2 & _ & _ & Hok & Ht0 & _ & Hend).
+  cbn [map q_chain]. split; [exact Hok|]. split.
+  - destruct prevT as [T|]; [|exact I]. rewrite Ht0.
+    destruct p as [|b0 p']; [congruence|]. apply Forall_cons_iff in Hcp as [([Hb0 _] & _) _].
+    destruct b0 as [|s0 b0']; [congruence|]. cbn [concat app hd] in *.
+    apply Forall_cons_iff in Hprev as [H _]. exact H.
+  - rewrite Hend. apply IH; try assumption.
+    (* everything after the part lies after the part's last timestamp *)
+    assert (Hlp : In (last p []) p) by (apply last_in; exact Hp).
+    rewrite Forall_forall in Hcp. destruct (Hcp _ Hlp) as ([Hlne [_ Hnn]] & _).
+    assert (Hls : In (last (last p []) (0, 0)) (last p [])) by (apply last_in; exact Hlne).
+    rewrite Forall_forall in Cross. specialize (Cross _ Hlp). rewrite Forall_forall in Cross.
+    specialize (Cross _ Hls). eapply Forall_impl; [|exact Cross]. intros s Hs; cbv beta in Hs.
+    rewrite Forall_forall in Hnn. specialize (Hnn _ Hls).
+    pose proof (cw_ge res1 res1_pos _ Hnn). unfold last_t. lia.
+Qed.
+
+Lemma loop_parts bs : (1 <= bs)%nat -> forall fuel batches out,
+  aggr_loop cw fuel res2 bs (map (float_batch cw res1) batches) = Some out ->
+  Forall counter_batch batches -> seps cw res1 batches ->
+  exists parts,
+    concat parts = batches /\ Forall (fun p : list (list (Z * Z)) => p <> []) parts /\
+    present k_counter out = map (fun p => q_samples (q2_of res1 res2 p)) parts.
+Proof.
+  intros Hb. induction fuel as [|f IH]; intros batches out E Hcb Hsep.
+  - destruct batches; cbn in E; [injection E as <-; exists []; repeat split; constructor|discriminate].
+  - destruct batches as [|b0 r0]; [cbn in E; injection E as <-; exists []; repeat split; constructor|].
+    cbn [map aggr_loop] in E.
+    change (float_batch cw res1 b0 :: map (float_batch cw res1) r0) with (map (float_batch cw res1) (b0 :: r0)) in E.
+    rewrite map_length in E.
+    set (j := Nat.min bs (length (b0 :: r0))) in *.
+    rewrite firstn_map, skipn_map in E.
+    assert (Hj : (1 <= j)%nat) by (unfold j; cbn [length]; lia).
+    assert (Hsplit : firstn j (b0 :: r0) ++ skipn j (b0 :: r0) = b0 :: r0) by apply firstn_skipn.
+    assert (Hpne : firstn j (b0 :: r0) <> []) by (destruct j; [lia|discriminate]).
+    rewrite <- Hsplit in Hcb, Hsep. apply Forall_app in Hcb as [Hc1 Hc2].
+    destruct (seps_app res1 _ _ Hsep) as (S1 & S2 & _).
+    destruct (part_chunk res1 res2 res1_pos res2_pos _ Hpne Hc1 S1) as (k2 & Ek & Hk & _).
+    rewrite Ek in E.
+    destruct (aggr_loop cw f res2 bs (map (float_batch cw res1) (skipn j (b0 :: r0)))) as [rest|] eqn:Er; [|discriminate].
+    injection E as <-. destruct (IH _ _ Er Hc2 S2) as (parts & Hcat & Hne & Hpres).
+    exists (firstn j (b0 :: r0) :: parts). split; [cbn [concat]; rewrite Hcat; exact Hsplit|].
+    split; [constructor; assumption|].
+    unfold present in *. cbn [flat_map map]. rewrite Hk, Hpres. reflexivity.
+Qed.
+
+(* Level 2 (structure): the 1h counter chunks keep, per part of 5m chunks, the part's first
+   raw sample and last raw value in the documented format and are time-ordered; reading them
+   therefore yields the stitched values *)
+Lemma level2_structure nc1 nc2 data l1 l2 :
+  valid_counter res1 data -> (1 <= length l1 / nc2)%nat ->
+  level1 res1 nc1 data = Some l1 -> level2 res2 nc2 l1 = Some l2 ->
+  exists batches parts,
+    l1 = map (float_batch cw res1) batches /\ concat batches = keep_nonnan data /\
+    concat parts = batches /\ Forall (fun p : list (list (Z * Z)) => p <> []) parts /\
+    present k_counter l2 = map (fun p => q_samples (q2_of res1 res2 p)) parts /\
+    q_chain None (map (q2_of res1 res2) parts) /\
+    read_counter l2 = Some (expect None (map (q2_of res1 res2) parts)) /\
+    Forall counter_batch batches /\ seps cw res1 batches.
+Proof.
+  intros Hv Hbs E1 E2.
+  destruct (level1_structure res1 res1_pos nc1 data Hv) as (batches & E1' & Hcat & Hcb & Hsep).
+  rewrite E1 in E1'. injection E1' as ->.
+  unfold level2, downsample_aggr in E2.
+  destruct (loop_parts _ Hbs _ _ _ E2 Hcb Hsep) as (parts & Hcp & Hne & Hpres).
+  exists batches, parts. split; [reflexivity|]. split; [exact Hcat|]. split; [exact Hcp|]. split; [exact Hne|].
+  split; [exact Hpres|].
+  assert (Hch : q_chain None (map (q2_of res1 res2) parts)).
+  { apply chain_parts; [exact Hne|rewrite Hcp; exact Hcb|rewrite Hcp; exact Hsep|exact I]. }
+  split; [exact Hch|]. split; [|split; assumption].
+  unfold read_counter, counter_toks. rewrite Hpres.
+  rewrite <- (map_map (q2_of res1 res2) q_samples).
+  pose proof (read_chunks _ Hch) as R. unfold READ in R.
+  destruct (acr_run _ _ acr0) as [[out fin]|]; [|discriminate]. exact R.
+Qed.
+
+End Level2.
